@@ -1,5 +1,5 @@
 """C18 -- failures to write output are reported, never silently ignored."""
-import os, re, shutil, subprocess
+import os, re, resource, shutil, signal, subprocess
 import vlib, e2e
 from vlib import show
 
@@ -22,7 +22,8 @@ def inventory(ctx):
 
 
 def unit_text(big):
-    env = "".join("Environment=K%d=%s\n" % (i, "v" * 60) for i in range(200)) if big else ""
+    n = {False: 0, True: 200, "medium": 40}[big]          # medium: ~3 KiB of service text, below the 8 KiB buffer of the writer
+    env = "".join("Environment=K%d=%s\n" % (i, "v" * 60) for i in range(n))
     return "[Container]\nImage=img\n%s[Install]\nWantedBy=default.target\n" % env
 
 
@@ -30,13 +31,15 @@ def run_case(box, idx, fault, pos, big):
     """three units a,b,c; the fault hits the unit at position pos (sorted order = discovery-independent: we only look at that unit's name)"""
     root = box.path("c%d" % idx)
     names = ["a", "b", "c"]
-    files = {"u/%s.container" % n: unit_text(big and n == names[pos]) for n in names}
+    files = {"u/%s.container" % n: unit_text(big if n == names[pos] else False) for n in names}
     e2e.make_tree(root, files)
     out = os.path.join(root, "out")
     target = names[pos]
     cmd_prefix = []
     if fault == "outdir_is_file":
         open(out, "w").write("x")
+    elif fault.startswith("fsize="):
+        os.makedirs(out)
     elif fault == "outdir_parent_is_file":
         open(os.path.join(root, "blk"), "w").write("x")
         out = os.path.join(root, "blk", "out")
@@ -59,19 +62,29 @@ def run_case(box, idx, fault, pos, big):
     env = dict(os.environ)
     env.update({"QUADLET_UNIT_DIRS": os.path.join(root, "u"), "PODMAN": "/usr/bin/podman"})
     env.pop("QUADLET_VERIF", None)
-    p = subprocess.run(cmd_prefix + [vlib.IMPL_BIN, "--no-kmsg-log", out], env=env, stdout=subprocess.PIPE, stderr=subprocess.PIPE, timeout=60)
+    pre = None
+    if fault.startswith("fsize="):
+        lim = int(fault.split("=")[1])
+        def pre():
+            # no file may grow beyond lim bytes; the write that would cross the limit fails with EFBIG (SIGXFSZ ignored): a fault in the middle of the content
+            signal.signal(signal.SIGXFSZ, signal.SIG_IGN)
+            resource.setrlimit(resource.RLIMIT_FSIZE, (lim, lim))
+    p = subprocess.run(cmd_prefix + [vlib.IMPL_BIN, "--no-kmsg-log", out], env=env, stdout=subprocess.PIPE, stderr=subprocess.PIPE, timeout=60, preexec_fn=pre)
     return root, out, target, names, p.returncode, p.stderr.decode("utf-8", "replace")
 
 
 def run(ctx):
     ctx.rule = ("3-unit runs (each unit with [Install] WantedBy) with one injected failure: output directory path occupied by a file, its parent occupied by a file, the service path occupied "
                 "by a directory, the service path a symlink to /dev/full (small unit: failure only at the final flush; unit > 8 KiB: failure during write), an existing read-only service file as an "
-                "unprivileged user; at each of the 3 positions; non-trivial = every case; distinct = distinct (fault, position, size)")
+                "unprivileged user; a file-size limit (RLIMIT_FSIZE, SIGXFSZ ignored) that makes the write fail at byte 1000 / 2500 of a 3 KiB unit and at byte 1000 / 9000 of a 14 KiB unit; at each of the 3 positions; non-trivial = every case; distinct = distinct (fault, position, size)")
     cases = []
     for fault in ("dir_in_the_way", "dev_full", "readonly_file"):
         for pos in range(3):
             for big in ((False, True) if fault == "dev_full" else (False,)):
                 cases.append((fault, pos, big))
+    # write faults at a byte offset: inside the content of a unit smaller than the writer's buffer (reported only by the final flush), and in the second buffer of a large one
+    for pos in range(3):
+        cases += [("fsize=1000", pos, "medium"), ("fsize=2500", pos, "medium"), ("fsize=9000", pos, True), ("fsize=1000", pos, True)]
     cases += [("outdir_is_file", 0, False), ("outdir_parent_is_file", 0, False)]
     have_setpriv = shutil.which("setpriv") and os.geteuid() == 0
     with e2e.Box() as box:
@@ -93,6 +106,8 @@ def run(ctx):
                 svc = os.path.join(out, target + ".service")
                 if svc not in err:
                     bad = "no error naming %s: %s" % (svc, err[-300:])
+                elif fault.startswith("fsize=") and os.path.getsize(svc) > int(fault.split("=")[1]):
+                    bad = "fault injection did not take effect"
                 elif os.path.lexists(os.path.join(out, "default.target.wants", target + ".service")):
                     bad = "service that could not be written was enabled"
                 else:
@@ -102,7 +117,7 @@ def run(ctx):
                             if not os.path.isfile(p) or "ExecStart=" not in open(p).read() or not os.path.lexists(os.path.join(out, "default.target.wants", n + ".service")):
                                 bad = "remaining service %s was not written and enabled" % n
             if bad:
-                ctx.failures.append({"op": "e2e", "fault": fault, "position": pos, "big": big, "what": "%s at unit %d (%s unit): %s" % (fault, pos, "large" if big else "small", bad),
+                ctx.failures.append({"op": "e2e", "fault": fault, "position": pos, "big": big, "what": "%s at unit %d (%s unit): %s" % (fault, pos, {True: "large", False: "small", "medium": "medium"}[big], bad),
                                      "class": "FlushErrorLost" if (fault == "dev_full" and not big) else None})
     ctx.samples = [{"fault": f, "position": p, "large_unit": b} for f, p, b in cases[:6]]
     unknown = [f for f in ctx.failures if f["class"] is None]
